@@ -128,14 +128,24 @@ def generate(ctx):
         for job in ent["jobs"]:
             for kind in KINDS:
                 yield {"c": ci, "job": job, "build": kind, "fault": None}
+    only = os.environ.get("VERIF_INFAULT_ONLY_JOB")      # development aid: restrict the byte-level enumeration to one job
     if ctx.tier == "thorough":
         for ci, ent in enumerate(CORPUS):
             for job in ent["jobs"]:
+                if only:
+                    break
                 for f in _faults_T(ent) + _faults_B(ent):
                     for kind in KINDS:
                         yield {"c": ci, "job": job, "build": kind, "fault": f}
+            # byte replacement / deletion: parse_file on both builds, the other jobs on the shipping-flag build,
+            # so that every (file, job, fault) the quick tier can sample has been executed here
             for f in _faults_R(ent) + _faults_D(ent):
-                yield {"c": ci, "job": "pf" if "pf" in ent["jobs"] else ent["jobs"][0], "build": "san", "fault": f}
+                for job in ent["jobs"]:
+                    if only and only != job:
+                        continue
+                    if job == "pf":
+                        yield {"c": ci, "job": job, "build": "san", "fault": f}
+                    yield {"c": ci, "job": job, "build": "rel", "fault": f}
     else:
         # seeded sample of the space the thorough tier enumerates
         budget = 30000
